@@ -131,11 +131,21 @@ for n in range(2, 65):
             assert bits_of(w) == '0' * offset + sign, (n, offset, value, bits_of(w))
             assert w.get_pos() == offset + 1
 
-# one-bit signed field: no room for a magnitude
-for value, sign in ((0, '0'), (1, '0'), (-1, '1')):
+# one-bit signed field: no room for a magnitude, so only zero fits; anything
+# else is refused before the sign bit is written
+for value in (0, 0.4, '0', False):
     w = get_bit_writer()
-    expect(ValueError, w.write_int, value, 1)
-    assert bits_of(w) == sign
+    ret = w.write_int(value, 1)
+    assert ret == 0 and type(ret) is int and bits_of(w) == '0' and w.get_pos() == 1
+for value in (1, -1, 2, -2 ** 70, '-1', True):
+    w = get_bit_writer()
+    e = expect(ValueError, w.write_int, value, 1)
+    assert 'does not fit a signed field of one bit' in str(e)
+    assert bits_of(w) == '' and w.get_pos() == 0
+# a width below one: the sign bit alone is written, whatever the value
+for value, sign in ((0, '0'), (5, '0'), (-5, '1')):
+    w = get_bit_writer()
+    assert w.write_int(value, 0) == value and bits_of(w) == sign
 
 # conversion errors come before anything is written
 w = get_bit_writer()
@@ -174,10 +184,17 @@ r = get_bit_reader(b'')
 expect(BitReadError, r.read_int, 8)
 assert r.get_pos() == 0
 
-# a one-bit signed read takes the sign and then fails on the empty magnitude
+# a one-bit signed read takes the sign; the magnitude is empty, the value zero
+for octet in (b'\x80', b'\x00'):
+    for n in (1, 0, -1):
+        r = get_bit_reader(octet)
+        got = r.read_int(n)
+        assert got == 0 and type(got) is int and repr(got) == '0'
+        assert r.get_pos() == 1
+w = get_bit_writer()
+assert w.write(0, 'int', 1) == 0 and bits_of(w) == '0'
 r = get_bit_reader(b'\x80')
-e = expect(ValueError, r.read_int, 1)
-assert r.get_pos() == 1
+assert r.read('int', 1) == 0 and r.get_pos() == 1
 # the sign is read before a bad width is noticed
 r = get_bit_reader(b'\x80')
 expect(TypeError, r.read_int, None)
